@@ -200,7 +200,10 @@ Formats:
 
 	for _, m := range ms.Modules {
 		if mods[m.Name] == nil {
-			mods[m.Name] = m
+			// Several revisions of a module may have been read; the one
+			// filed under the bare name (the most recent) is printed,
+			// not whichever the map iteration meets first.
+			mods[m.Name] = ms.Modules[m.Name]
 			names = append(names, m.Name)
 		}
 	}
